@@ -2,6 +2,7 @@ import DaeVerif.C13.TrackerProofs
 import DaeVerif.C13.DrainProofs
 import DaeVerif.C13.KeysProofs
 import DaeVerif.C13.TQStep
+import DaeVerif.C13.EPProofs
 /-!
 # C13 — helper lemmas (index)
 
@@ -10,4 +11,6 @@ import DaeVerif.C13.TQStep
 * `KeysProofs`    — shape of the endpoint keys
 * `TQBasic`, `TQProd*`, `TQConv*`, `TQStep` — the inductive invariant of the repaired task-queue
   protocol: one preservation lemma per atomic step, `inv_reachable` at the end
+* `EPProofs`      — endpoint pool: closing discipline (`CloseOk`) and monotone facts (`Later`) for every
+  operation, lifted to histories
 -/
